@@ -182,8 +182,8 @@ func Generate(rng *rand.Rand, prop, tier string, gomaxprocs int) *Desc {
 	gen = func(pi, depth int) ExecD {
 		p := programs[pi].P
 		mix := mixFor(rng, prop)
-		x := ExecD{Prog: pi, TaskOut: map[int]int{}, PredOut: map[int]int{}, Len: map[int]int{}, PanicKind: rng.Intn(7), Colls: map[int]*CollD{}}
-		x.Conc = []int{1, 1, 2, 2, 3, 4, 8}[rng.Intn(7)]
+		x := ExecD{Prog: pi, TaskOut: map[int]int{}, PredOut: map[int]int{}, Len: map[int]int{}, PanicKind: rng.Intn(8), Colls: map[int]*CollD{}}
+		x.Conc = []int{1, 1, 2, 2, 3, 4, 8, 0}[rng.Intn(8)] // 0: cff.Concurrency(0) means the default
 		x.Bools = [2]bool{rng.Intn(2) == 0, rng.Intn(4) == 0}
 		if prop == "C08" && rng.Intn(5) != 0 {
 			x.Bools = [2]bool{true, false}
@@ -326,6 +326,8 @@ func Generate(rng *rand.Rand, prop, tier string, gomaxprocs int) *Desc {
 		if rng.Intn(6) == 0 {
 			x.CtxKind = 1
 		}
+		x.SlowEmit = emitters(p) > 0 && rng.Intn(3) == 0
+		x.SharedErr = rng.Intn(5) == 0
 		if prop == "C11" && p.Flow != nil && rng.Intn(4) == 0 {
 			setHold(rng, p, &x)
 		}
@@ -351,7 +353,11 @@ func Generate(rng *rand.Rand, prop, tier string, gomaxprocs int) *Desc {
 		if e > 0 && rng.Intn(2) == 0 {
 			pi = d.Execs[0].Prog // the same directive from several goroutines
 		}
-		d.Execs = append(d.Execs, gen(pi, 0))
+		x := gen(pi, 0)
+		if e > 0 && rng.Intn(3) == 0 {
+			x.After = e // one after the other instead of side by side
+		}
+		d.Execs = append(d.Execs, x)
 	}
 	d.Policy = pickPolicy(rng, prop)
 	d.Budget = 40 * (total + 10) * (maxLen + 10)
